@@ -379,6 +379,8 @@ fn perform(root: &Path, l: &Layout, h: &Handle, ro: &Option<Handle>, tid: usize,
             }));
             shim::bypass(|| {
                 let _ = std::fs::remove_file(&path);
+                // (leave nothing behind on the other filesystem; fails harmlessly if not yet empty)
+                let _ = std::fs::remove_dir(&dir);
             });
             let ret = match r {
                 Ok(Ok(())) => Ret::Unit,
